@@ -731,6 +731,22 @@ func checkOneTxn(p *an.Prog, r *an.Run, rule string) {
 			}
 			n++
 			var bad []string
+			// transactions run by helpers the method calls outside its own closure count as well (a fast path that
+			// writes through a helper's own Update is a second, unrelated transaction)
+			isTxnStart := func(cc ssa.CallInstruction) bool {
+				g := an.CallObj(cc)
+				return g != nil && (g.Name() == "Update" || g.Name() == "View" || g.Name() == "NewTransaction") && an.RecvNamed(g) != nil && an.RecvNamed(g).Obj().Name() == "DB"
+			}
+			for _, c := range an.Calls(m, false) {
+				for _, cal := range p.CalleesAt(c) {
+					if cal == nil || !p.InRepo(cal) || cal == m || cal.Parent() != nil {
+						continue
+					}
+					if w, ok := p.ReachesCall(cal, isTxnStart); ok {
+						bad = append(bad, "also runs the transaction of "+an.FuncName(cal)+" ("+p.Pos(w.Pos())+", called at "+p.Pos(c.Pos())+"): the method's accesses are spread over several transactions")
+					}
+				}
+			}
 			if len(regs) != 1 {
 				bad = append(bad, "runs "+itoa(len(regs))+" transactions (want exactly 1): reads and writes in different transactions are not atomic")
 			} else {
